@@ -596,6 +596,8 @@ KERNELS = [
            symbolic=["every character of the RTF text (from the RTF lexeme alphabet) / every byte of the record stream"],
            assumptions=["more than 160 solver decisions or 40000 executed lines on one path of an input of <= 6 characters / 32 bytes stands for non-termination; a hit is replayed on the real function in a child process under a 5 s hard wall-clock limit"],
            outside=["inputs longer than the bound (RTF 5/6 characters, record streams 20/32 bytes)",
+                    "time spent inside a single C-level call (super-linear regular expressions on whole inputs "
+                    "terminate and execute no repository lines: seed C01-c is not detected)",
                     "loops driven by third-party iterators (pypdf, SharePoint paging)"],
            timeout={"quick": 280, "thorough": 2400}),
     Kernel("K3", "CLI: result and exit 0, or empty stdout + one stderr line + exit 1", k3_cli,
